@@ -946,6 +946,20 @@ func (c *Conn) dispatch(fr *FrameHeader) bool {
 		return false
 	}
 
+	// Flow-control credit for a DATA frame is queued for the write loop, and the
+	// queue can be full. Waiting for room in it while holding the Ctx is a
+	// cycle when the write loop is busy with this very request (it is sending
+	// its body while the server already answers) and wants the Ctx next: so
+	// the credit goes out after the Ctx has been let go (deferred calls run
+	// last in, first out).
+	var credit int
+
+	defer func() {
+		if credit > 0 {
+			c.creditData(fr, credit)
+		}
+	}()
+
 	// Released on the way out even if readStream panics: leaving the Ctx locked
 	// would wedge the RoundTrip that is waiting to take it back.
 	defer r.release()
@@ -966,6 +980,10 @@ func (c *Conn) dispatch(fr *FrameHeader) bool {
 		}
 	} else {
 		err = c.readStream(fr, r.Response)
+
+		if fr.Type() == FrameData {
+			credit = fr.Len()
+		}
 	}
 
 	if err == nil {
@@ -1794,19 +1812,25 @@ func (c *Conn) readStream(fr *FrameHeader, res *fasthttp.Response) (err error) {
 			res.AppendBody(data.Data())
 		}
 
-		// The whole payload counts against the window, padding included (RFC
-		// 7540 6.9.1), so the whole payload is what goes back. Tying the
-		// credit to the data alone meant a padded frame with no data in it was
-		// never given back, and enough of them closed the stream's window for
-		// good. A stream the server has just ended needs no more credit.
-		if fr.Len() != 0 && !fr.Flags().Has(FlagEndStream) {
-			c.updateWindow(fr.Stream(), fr.Len())
-		}
-
-		c.creditConnWindow(fr.Len())
+		// The credit for the frame is the caller's business (see creditData):
+		// it is handed back once the request's Ctx has been let go.
 	}
 
 	return err
+}
+
+// creditData hands the flow-control credit for a DATA frame back. The whole
+// payload counts against the window, padding included (RFC 7540 6.9.1), so the
+// whole payload is what goes back. Tying the credit to the data alone meant a
+// padded frame with no data in it was never given back, and enough of them
+// closed the stream's window for good. A stream the server has just ended
+// needs no more credit. Read loop only.
+func (c *Conn) creditData(fr *FrameHeader, n int) {
+	if n != 0 && !fr.Flags().Has(FlagEndStream) {
+		c.updateWindow(fr.Stream(), n)
+	}
+
+	c.creditConnWindow(n)
 }
 
 // creditConnWindow accounts for a DATA frame against the connection-level
